@@ -29,6 +29,7 @@ from harness import core
 from harness import lib_mlops as L
 from harness import lib_c06prog as P
 from harness import lib_c06vdep as V
+from harness import lib_c06if as IF
 
 SIZES = [0, 1, 2, 5]
 GLUE_BASELINE = Path(__file__).resolve().parent.parent / "c06_glue_baseline.json"
@@ -209,6 +210,87 @@ def corr_loop(ck: core.Check, drv, rows=None) -> None:
     ck.cov["loop_correspondence"] = {"cases_v17": len(cases), "modules": list(LOOP_PATCHED), "mismatches": mism}
 
 
+def corr_if(ck: core.Check, drv) -> None:
+    """Round 10. `inferIf` (the join of the branches' result types) vs. the real `op.if_` of every opset
+    module, on all pairs of one-result branches over IF_TYS plus random multi-result cases (incl.
+    different numbers of results, untyped results, no results); and `ifRun` vs. onnxruntime on raw `If`
+    nodes. The class of every case is counted into the evidence."""
+    rng = ck.rng
+    tys = IF.IF_TYS
+    typed = [t for t in tys if t is not None]
+    pairs = [([a], [b]) for a in tys for b in tys]
+    multi = [([], []), ([typed[2]], []), ([], [typed[2]]), ([typed[2], typed[3]], [typed[2]])]
+    for _ in range(ck.pick(120, 2000)):
+        n = rng.randrange(1, 4)
+        T = [rng.choice(typed) for _ in range(n)]
+        E = []
+        for t in T:
+            r = rng.random()
+            if r < 0.3:
+                E.append(t)
+            elif r < 0.8:
+                same_e = [u for u in typed if u["e"] == t["e"]]
+                E.append(rng.choice(same_e))
+            elif r < 0.95:
+                E.append(rng.choice(typed))
+            else:
+                E.append(None)
+        if rng.random() < 0.06:
+            E = E[:-1] if rng.random() < 0.5 else E + [rng.choice(typed)]
+        if rng.random() < 0.5:
+            T, E = E, T
+        multi.append((T, E))
+    cases = pairs + multi
+    mism, dist, outcomes = 0, {}, {}
+    for module in P.OPSET_MODULES:
+        sub = cases if module == "v17" or ck.thorough else (pairs[::8] + multi[:20])
+        model = drv.ask_many("C06", [{"k": "if", "T": T, "E": E} for T, E in sub])
+        for (T, E), m in zip(sub, model):
+            real = IF.real_if(T, E, module)
+            ck.count(("if", module, json.dumps([T, E])))
+            rel = IF.relation(T, E)
+            dist[rel] = dist.get(rel, 0) + 1
+            oc = "ok" if "ok" in real else real.get("err", "?")
+            outcomes[oc] = outcomes.get(oc, 0) + 1
+            if m != real:
+                mism += 1
+                if mism <= 5:
+                    ck.broken(
+                        "correspondence",
+                        f"inferIf model-vs-op.if_ ({module})",
+                        f"T={json.dumps(T)} E={json.dumps(E)} model={json.dumps(m)} real={json.dumps(real)}",
+                    )
+    # ifRun vs onnxruntime on raw If nodes
+    vals = [{"e": "f32", "s": []}, {"e": "f32", "s": [2]}, {"e": "f32", "s": [4]}, {"e": "f32", "s": [2, 3]},
+            {"e": "f32", "s": [0]}, {"e": "i64", "s": [2]}, {"e": "bool", "s": [1, 2]}]
+    raw, rmism, refused = [], 0, 0
+    for a in vals:
+        for b in vals:
+            raw.append(([a], [b]))
+    for _ in range(ck.pick(12, 120)):
+        n = rng.randrange(2, 4)
+        raw.append(([rng.choice(vals) for _ in range(n)], [rng.choice(vals) for _ in range(n)]))
+    reqs = [{"k": "ifrun", "c": c, "vt": vt, "ve": ve} for vt, ve in raw for c in (True, False)]
+    outs = drv.ask_many("C06", reqs)
+    for rq, m in zip(reqs, outs):
+        try:
+            real = IF.raw_if_run(rq["vt"], rq["ve"], rq["c"])
+        except Exception:  # noqa: BLE001  (onnxruntime refuses e.g. branches of different element types)
+            refused += 1
+            continue
+        ck.count(("ifrun", json.dumps(rq)))
+        if m.get("run") != real:
+            rmism += 1
+            if rmism <= 3:
+                ck.broken("correspondence", "ifRun model-vs-onnxruntime (raw If node)",
+                          f"req={json.dumps(rq)} model={json.dumps(m)} runtime={json.dumps(real)}")
+    ck.cov["if_correspondence"] = {
+        "cases_v17": len(cases), "modules": list(P.OPSET_MODULES), "mismatches": mism,
+        "case_classes": dist, "real_outcomes": outcomes,
+        "raw_if_runs": len(reqs), "raw_if_refused_by_runtime": refused, "raw_if_mismatches": rmism,
+    }
+
+
 def corr_looprun(ck: core.Check, drv) -> None:
     """`loopRun` / `stackScan` / `emptyScanOk` (the Loop semantics the theorems quantify over) vs.
     onnxruntime: trip counts 0-3, initial condition, per-iteration conditions, shape-preserving and
@@ -381,6 +463,67 @@ def corr_scanrun(ck: core.Check, drv) -> None:
                                         "type_cases": tcases, "type_mismatches": tmism}
     if ran < len(cases) // 2:
         ck.broken("correspondence", "scanRun not observable", f"onnxruntime accepted only {ran}/{len(cases)} raw Scan models")
+
+
+def corr_scanstate(ck: core.Check, drv) -> None:
+    """Round 10. `scanStateTy` vs. the type the real `op.scan` of every opset module reports for a final state
+    (all pairs initial type x body result type over STATE_TYS); `guardBody` (the runtime's loop-state rule)
+    vs. onnxruntime on raw Scan nodes whose body keeps / changes the state's shape, scan length 1-3."""
+    tys = IF.STATE_TYS
+    pairs = [(a, b) for a in tys for b in tys]
+    mism, outcomes = 0, {}
+    model = drv.ask_many("C06", [{"k": "scanstate", "S0": a, "R": b} for a, b in pairs])
+    for mi, module in enumerate(P.OPSET_MODULES):
+        for pi, ((a, b), m) in enumerate(zip(pairs, model)):
+            if module != "v17" and not ck.thorough and (pi + mi) % 4:
+                continue
+            real = IF.real_scan_state(a, b, module)
+            ck.count(("scanstate", module, json.dumps([a, b])))
+            oc = "ok" if "ty" in real else real.get("err", "?")
+            outcomes[oc] = outcomes.get(oc, 0) + 1
+            if m != real:
+                mism += 1
+                if mism <= 5:
+                    ck.broken("correspondence", f"scanStateTy model-vs-op.scan ({module})",
+                              f"S0={json.dumps(a)} R={json.dumps(b)} model={json.dumps(m)} real={json.dumps(real)}")
+    # two / three states at once: every slot gets ITS OWN merged type (slot mix-ups)
+    by_pair = {json.dumps([a, b]): m for (a, b), m in zip(pairs, model)}
+    multi_n = 0
+    for i in range(ck.pick(40, 400)):
+        n = ck.rng.randrange(2, 4)
+        sel = [ck.rng.choice(pairs) for _ in range(n)]
+        ms = [by_pair[json.dumps([a, b])] for a, b in sel]
+        want = {"err": "InferenceError"} if any("err" in m for m in ms) else {"tys": [m["ty"] for m in ms]}
+        module = P.OPSET_MODULES[i % len(P.OPSET_MODULES)]
+        real = IF.real_scan_states([a for a, _ in sel], [b for _, b in sel], module)
+        multi_n += 1
+        ck.count(("scanstates", module, json.dumps(sel)))
+        if want != real:
+            mism += 1
+            if mism <= 5:
+                ck.broken("correspondence", f"scanStateTys model-vs-op.scan ({module}, {n} states)",
+                          f"pairs={json.dumps(sel)} model={json.dumps(want)} real={json.dumps(real)}")
+    runs = [{"k": "scanguard", "body": kind, "state": {"e": "f32", "s": sh}, "n": n}
+            for kind in ("keep", "double", "head", "flatten") for sh in ([3], [1], [2, 3], [1, 4], [0]) for n in (1, 2, 3)]
+    rmism, accepted, refused = 0, 0, 0
+    for rq, m in zip(runs, drv.ask_many("C06", runs)):
+        try:
+            real = IF.raw_scan_state_run(rq["body"], rq["state"]["s"], rq["n"])
+            accepted += 1
+        except Exception:  # noqa: BLE001
+            real = None
+            refused += 1
+        ck.count(("scanguard", json.dumps(rq)))
+        mo = m.get("run")
+        got = None if mo is None else mo["final"] + mo["outs"]
+        if got != real:
+            rmism += 1
+            if rmism <= 3:
+                ck.broken("correspondence", "guardBody (Scan loop-state rule) model-vs-onnxruntime (raw Scan node)",
+                          f"req={json.dumps(rq)} model={json.dumps(m)} runtime={json.dumps(real)}")
+    ck.cov["scanstate_correspondence"] = {"type_pairs": len(pairs), "multi_state_cases": multi_n, "modules": list(P.OPSET_MODULES), "type_mismatches": mism,
+                                          "real_outcomes": outcomes, "raw_runs": len(runs), "runtime_accepted": accepted,
+                                          "runtime_refused": refused, "raw_mismatches": rmism}
 
 
 def corr_nontensor(ck: core.Check, drv) -> None:
@@ -664,6 +807,29 @@ def oracle_loop_families(ck: core.Check) -> dict:
     return stats
 
 
+def oracle_if_families(ck: core.Check) -> dict:
+    """Round 10. One `If` whose branches compute results of different types (then [A(x), B(x)], else
+    [B(x), A(x)]) for every unordered pair of nine branch kinds, four input shapes, every opset module;
+    condition fed true and false."""
+    stats = {"programs": 0, "rejected": 0, "runs": 0, "runs_refused_by_runtime": 0, "vars_checked": 0, "per_module": {}}
+    for case in IF.if_family_cases(list(P.OPSET_MODULES), ck.thorough or bool(ESCALATE)):
+        st = IF.run_if_family(case, ck.rng, SIZES, max_inst=ck.pick(2, 4))
+        stats["programs"] += 1
+        if st.get("rejected"):
+            stats["rejected"] += 1
+            continue
+        stats["runs"] += st["runs"]
+        stats["runs_refused_by_runtime"] += st["refused"]
+        stats["vars_checked"] += st["checked"]
+        stats["per_module"][case["module"]] = stats["per_module"].get(case["module"], 0) + st["checked"]
+        ck.count(("if-family", json.dumps(case)) if st["checked"] else None)
+        report(ck, st["fails"], case)
+    for mod in P.OPSET_MODULES:
+        if not stats["per_module"].get(mod):
+            ck.broken("correspondence", f"If programs of opset module {mod} not observable", "")
+    return stats
+
+
 def oracle_inline_forms(ck: core.Check) -> dict:
     """`inline(m)(…)` called positionally / by keyword / mixed, with exact, compatible-but-weaker and
     incompatible argument types. Incompatible ones must be refused (TypeError) at the call; whenever
@@ -899,9 +1065,11 @@ def run(ck: core.Check):
         _facet(ck, "infer correspondence", corr_infer, ck, drv)
         ck.log("infer correspondence done")
         _facet(ck, "Loop correspondence", corr_loop, ck, drv, tab["rows"] if tab else None)
+        _facet(ck, "If correspondence", corr_if, ck, drv)
         _facet(ck, "runtime-spec correspondence", corr_rt, ck, drv)
         _facet(ck, "loopRun correspondence", corr_looprun, ck, drv)
         _facet(ck, "scanRun correspondence", corr_scanrun, ck, drv)
+        _facet(ck, "Scan state correspondence", corr_scanstate, ck, drv)
         ck.log("runtime-spec correspondence done")
         _facet(ck, "conforms/strip correspondence", corr_conf, ck, drv)
         _facet(ck, "non-tensor inputs correspondence", corr_nontensor, ck, drv)
@@ -913,6 +1081,7 @@ def run(ck: core.Check):
     ck.cov["oracle_scan"] = _facet(ck, "Scan oracle", oracle_scan, ck)
     ck.cov["oracle_defaults"] = _facet(ck, "defaulted-argument oracle", oracle_defaults, ck)
     ck.cov["oracle_loop_families"] = _facet(ck, "Loop families oracle", oracle_loop_families, ck)
+    ck.cov["oracle_if_families"] = _facet(ck, "If families oracle", oracle_if_families, ck)
     ck.cov["oracle_inline_forms"] = _facet(ck, "inline call-form oracle", oracle_inline_forms, ck)
     ck.cov["oracle_attr_functions"] = _facet(ck, "attribute-function oracle", oracle_attr_functions, ck)
     ck.cov["oracle_function_conflicts"] = _facet(ck, "function-conflict oracle", oracle_function_conflicts, ck)
@@ -963,6 +1132,8 @@ def replay(ck: core.Check, doc) -> bool:
         st = P.run_default_case(case, rng, SIZES, max_inst=1, extra_feeds=extra)
     elif case.get("kind") == "loop-family":
         st = P.run_loop_family(case, rng, SIZES, max_inst=4, extra_feeds=extra)
+    elif case.get("kind") == "if-family":
+        st = IF.run_if_family(case, rng, SIZES, max_inst=4, extra_feeds=extra)
     elif case.get("kind") == "inline-form":
         st = P.run_inline_case(case, rng, SIZES, max_inst=6, extra_feeds=extra)
     elif case.get("kind") == "attr-function":
